@@ -127,6 +127,7 @@ def main(argv=None):
     ap.add_argument('--replay')
     ap.add_argument('--repo', default=facts.REPO)
     ap.add_argument('--no-evidence', action='store_true')
+    ap.add_argument('--no-selftest', action='store_true', help='thorough tier without the mutant/benign self-test (development aid)')
     ap.add_argument('--json', action='store_true', help='print the obligations as JSON (used by the self-test)')
     args = ap.parse_args(argv)
     pid = args.pid.upper()
@@ -180,9 +181,10 @@ def main(argv=None):
             except Exception as e:
                 traceback.print_exc()
                 fatal = 'fixture: %s: %s' % (type(e).__name__, e)
-        if args.tier == 'thorough' and hasattr(mod, 'thorough'):
+        if args.tier == 'thorough' and not args.no_selftest:
             try:
-                selftest = mod.thorough(args.repo)
+                import selftest as st
+                selftest = mod.thorough(args.repo) if hasattr(mod, 'thorough') else st.run_for(pid, args.repo)
                 extra_cov['selftest'] = selftest
                 for bad in selftest.get('failures', []):
                     all_obs.append(Ob('selftest', '%s|selftest|%s' % (pid, bad), VIOLATION,
